@@ -1530,7 +1530,11 @@ val missed_path_errors : dir list -> cerr option
 val build_catalog :
   (coords -> bytes) -> n list -> nat -> dir list -> catalog cres
 
-val placed : nat -> n option -> dir -> bool
+val placed : n option -> dir -> bool
+
+val nmtree : dir -> bool
+
+val macros_on_top : dir list -> bool
 
 type otable = (((bytes * okind) * z) * olen_res) list
 
@@ -1583,7 +1587,8 @@ val tree_case_b :
 
 val tree_case : fsmap -> bytes -> otable -> etable -> nat -> tree_result
 
-val placed_case : fsmap -> bytes -> otable -> etable -> nat -> bool option
+val placed_case :
+  fsmap -> bytes -> otable -> etable -> nat -> (bool * bool) option
 
 type skind =
 | KJsight
